@@ -170,3 +170,45 @@ pub proof fn lemma_fee_history_liveness(w0: World, steps: Seq<FeeStep>, t: Addre
     assert(listed(w, t) <==> allowed_set(steps).contains(t));
     if listed(w, t) { lemma_disallow_guard(w, t); }
 }
+
+/// non-vacuity witness: a genesis world exists and allow(a); allow(b); disallow(a) is a valid history ending in {b}
+pub open spec fn empty_world(this: Address) -> World {
+    World { instance: Map::empty(), persistent: Map::empty(), temporary: Map::empty(), temp_live: Map::empty(), ledger_seq: 1, timestamp: 0,
+            max_entry_ttl: 100, min_temp_ttl: 1, network_id: Seq::empty(), this: this, auths: Set::empty(), auth_args: Set::empty(),
+            self_auths: Seq::empty(), events: Seq::empty(), calls: Seq::empty(), ext: 0 }
+}
+pub proof fn lemma_fee_witness(this: Address, a: Address, b: Address)
+    requires a != b,
+    ensures
+        //@@ C19:history.witness
+        ({
+            let w0 = empty_world(this);
+            let steps = seq![FeeStep::Allow(a), FeeStep::Allow(b), FeeStep::Disallow(a)];
+            fee_genesis(w0) && fvalid(w0, steps) && listed(frun(w0, steps), b) && !listed(frun(w0, steps), a) && fcount(frun(w0, steps)) == 1
+        }),
+{
+    let w0 = empty_world(this);
+    let s0 = Seq::<FeeStep>::empty();
+    let s1 = s0.push(FeeStep::Allow(a));
+    let s2 = s1.push(FeeStep::Allow(b));
+    let s3 = s2.push(FeeStep::Disallow(a));
+    assert(fee_genesis(w0));
+    assert(fvalid(w0, s0));
+    assert(s1.drop_last() =~= s0);
+    assert(s2.drop_last() =~= s1);
+    assert(s3.drop_last() =~= s2);
+    assert(allowed_set(s0) =~= Set::<Address>::empty());
+    assert(allowed_set(s1) =~= Set::<Address>::empty().insert(a));
+    assert(allowed_set(s2) =~= Set::<Address>::empty().insert(a).insert(b));
+    assert(allowed_set(s3) =~= Set::<Address>::empty().insert(b));
+    lemma_fee_history_liveness(w0, s0, a);
+    assert(fvalid(w0, s1));
+    lemma_fee_history_liveness(w0, s1, b);
+    assert(allowed_set(s1).len() == 1);
+    assert(fvalid(w0, s2));
+    lemma_fee_history_liveness(w0, s2, a);
+    assert(fvalid(w0, s3));
+    lemma_fee_history(w0, s3);
+    assert(allowed_set(s3).len() == 1);
+    assert(s3 =~= seq![FeeStep::Allow(a), FeeStep::Allow(b), FeeStep::Disallow(a)]);
+}
